@@ -58,7 +58,7 @@ Current(i) == i.fork = "electra" \/ "AnyFork" \in Devs
 
 Verdict(i) ==
   CASE i.kind = "update"     -> i.kdec /\ i.dec /\ (i.kb = Len(i.tags) \/ "NoCountCheck" \in Devs)
-    [] i.kind = "bootstrap"  -> i.dec /\ Current(i) /\ i.aux # "old"
+    [] i.kind = "bootstrap"  -> i.dec /\ Current(i) /\ i.aux = "ok"
     [] i.kind = "finality"   -> i.kdec /\ i.dec /\ Current(i) /\ (i.ka <= i.cv \/ "FinalityKeyAbove" \in Devs)
     [] i.kind = "optimistic" -> i.kdec /\ i.dec /\ Current(i) /\ (i.ka = i.cv \/ ("OptimisticLoose" \in Devs /\ i.ka <= i.cv))
     [] i.kind = "summaries"  -> i.kdec /\ i.dec /\ i.ka = i.cv /\ (i.aux = "ok" \/ ("SummariesNoProof" \in Devs /\ i.aux # "oraclefail"))
@@ -101,7 +101,7 @@ Receive(n) == /\ open /\ res # "run" /\ n \in 1..MaxBatch
 \* The verdicts the validator may give.  A finality update that satisfies every rule MAY still be refused: today's code
 \* refuses all of them (the current fork is demanded, and the conversion to the generic update, FromLightClientFinalityUpdate,
 \* has no case for the current fork's type); refusing is always safe, so both are behaviours of the specification.
-Allowed(i) == IF i.kind = "finality" /\ Verdict(i) THEN BOOLEAN ELSE {Verdict(i)}
+Allowed(i) == IF i.kind = "finality" /\ Verdict(i) THEN BOOLEAN ELSE {Verdict(i) <=> TRUE}
 
 ValidateAs(i, v) ==
   /\ open /\ res = "run" /\ cur = NoItem /\ left > 0
